@@ -101,20 +101,36 @@ def run(index: RepoIndex, rep) -> None:
     cls = index.cls(INNER, 'InnerEnv')
     # ---------------------------------------------------------------- R1
     # private methods that are inlined into their callers are judged at the call sites
+    # a public setter (`set_state(state)`: stores its own parameter and invalidates the memo)
+    # is an entry point of its own; reset/step written through it are read with it inlined
+    setters = set()
+    for mname, m in cls.methods.items():
+        if mname.startswith('__') or m.node.decorator_list:
+            continue
+        w0 = walk_function(m.node)
+        ps0 = [a.arg for a in m.node.args.args[1:]]
+        st0 = [e for e in w0.events if self_attr_store(e, '_state')]
+        if st0 and all(e.value is not None and isinstance(w0.expand(e.value), ast.Name)
+                       and w0.expand(e.value).id in ps0 for e in st0):
+            setters.add(mname)
+    cross = tuple(sorted(setters))
     inlined_somewhere = set()
     for mname, m in cls.methods.items():
-        inlined_somewhere |= set(view(index, m)[2])
+        inlined_somewhere |= set(view(index, m, cross=cross)[2])
     writers = 0
     private_writers = []
     for mname, m in sorted(cls.methods.items()):
         if mname == '__init__':
             continue
-        node, w, _ = view(index, m)
+        node, w, _ = view(index, m, cross=cross)
         st = [e for e in w.events if self_attr_store(e, '_state')]
         if not st:
             continue
-        helper_only = mname in inlined_somewhere and mname.startswith('_')
-        if helper_only:
+        helper_only = (mname in inlined_somewhere and mname.startswith('_')) or \
+            mname in setters
+        if mname in setters:
+            pass
+        elif helper_only:
             private_writers.append(mname)
         else:
             writers += 1
